@@ -142,13 +142,41 @@ def id_correlation(ctx) -> None:
     graph = cfg.CFG(ap.node)
     reg = [s for s in graph.statements() if isinstance(s, ast.Assign) and isinstance(s.targets[0], ast.Subscript) and core.src(s.targets[0].value) == 'self._pending']
     put = [s for s in graph.statements() if any(isinstance(c.func, ast.Attribute) and c.func.attr in ('put', 'put_nowait') and '_tasks' in core.src(c.func.value) for c in cfg.header_calls(s))]
-    key_attr = core.src(reg[0].targets[0].slice) if reg else 'self._index'
+    # single-assignment locals of apply(): the task may be built first and its id read back (`task.id` of a Task(K, ..) is K)
+    local: dict = {}
+    for st in core.walk_local(ap.node):
+        if isinstance(st, ast.Assign) and len(st.targets) == 1 and isinstance(st.targets[0], ast.Name):
+            local.setdefault(st.targets[0].id, []).append(st.value)
+
+    def task_call(e):
+        if isinstance(e, ast.Name) and len(local.get(e.id, [])) == 1:
+            e = local[e.id][0]
+        return e if isinstance(e, ast.Call) and core.call_name(e) == 'Task' else None
+
+    def id_of(task):
+        if task is None:
+            return None
+        if task.args:
+            return task.args[0]
+        return next((k.value for k in task.keywords if k.arg == 'id'), None)
+
+    def key_expr(e):
+        if isinstance(e, ast.Attribute) and e.attr == 'id' and task_call(e.value) is not None and id_of(task_call(e.value)) is not None:
+            return core.src(id_of(task_call(e.value)))
+        return core.src(e)
+
+    key_attr = key_expr(reg[0].targets[0].slice) if reg else 'self._index'
     inc = [s for s in graph.statements() if isinstance(s, (ast.AugAssign, ast.Assign)) and core.src(s.target if isinstance(s, ast.AugAssign) else s.targets[0]) == key_attr]
     if len(reg) != 1 or len(put) != 1 or len(inc) != 1:
         ctx.fail('C16.id', ap, f'id bookkeeping idiom not recognised (register={len(reg)} put={len(put)} advance={len(inc)})', ap.node, key='apply:idiom')
         return
-    key = core.src(reg[0].targets[0].slice)
-    task = next(c for c in core.calls_in(put[0]) if core.call_name(c) == 'Task')
+    key = key_attr
+    task = next((c for c in core.calls_in(put[0]) if core.call_name(c) == 'Task'), None)
+    if task is None:
+        task = next((task_call(a) for c in cfg.header_calls(put[0]) for a in c.args if task_call(a) is not None), None)
+    if task is None:
+        ctx.fail('C16.id', ap, 'the queued object is not a Task built in apply()', put[0], key='apply:idiom')
+        return
     def targ(pos: int, name: str) -> str:
         if len(task.args) > pos:
             return core.src(task.args[pos])
